@@ -270,6 +270,61 @@ def run_api(spec, acc):
                 if real(root, wd_sent) != real(wd_abs):
                     acc.violation(f"C20|api|step workdir|{here}|{wd}",
                                   {"here": here, "workdir": wd, "sent": wd_sent}, None)
+        # glob(): the pattern and the matches travel together; the director records the matches
+        # under the translated pattern and scans again with it at the next start
+        from stepup.core.nglob import NamedGlob
+
+        patterns = []
+        for d in dirs_:
+            for tail in ("*", "${*n}", "f"):
+                patterns.append(d + tail)
+                if not d.startswith("./"):
+                    patterns.append("./" + d + tail)
+        for pat in patterns:
+            rec = _Recorder()
+            su_api.get_rpc_client = lambda path=None, rec=rec: rec
+            try:
+                ng = su_api.glob(pat)
+            except Exception as exc:  # noqa: BLE001
+                acc.violation(f"C20|api-raises|glob|{here}|{pat}", {"error": repr(exc)}, None)
+                continue
+            calls = [c for c in rec.calls if c[0] == "register_glob"]
+            _job, tr_pattern, subs, tr_paths = calls[0][1][:4]
+            local = [str(x) for x in ng.files()]
+            acc.evaluations += 1
+            if ".." in pat or here != ".":
+                acc.nontrivial.add(h8(["glob", here, pat]))
+            want = sorted(real(caller_dir, x) for x in local)
+            got = sorted(os.path.realpath(str(x)) if os.path.isabs(str(x)) else real(root, str(x)) for x in tr_paths)
+            if want != got:
+                acc.violation(f"C20|api|glob matches|{here}|{pat}",
+                              {"here": here, "pattern": pat, "local_matches": local,
+                               "sent": [str(x) for x in tr_paths]}, None)
+                continue
+            inside = all(w.startswith(os.path.realpath(root) + os.sep) for w in want)
+            if not inside or not local:
+                continue
+            # what the director does with the payload
+            acc.evaluations += 2
+            try:
+                dng = NamedGlob(str(tr_pattern), dict(subs))
+                dng.extend([str(x) for x in tr_paths])
+                kept = sorted(str(x) for x in dng.files())
+                os.chdir(root)
+                fresh = NamedGlob(str(tr_pattern), dict(subs))
+                fresh.glob()
+                rescan = sorted(str(x) for x in fresh.files())
+            finally:
+                os.chdir(caller_dir)
+            sent = sorted(str(x) for x in tr_paths)
+            if kept != sent:
+                acc.violation(f"C20|api|glob payload rejected by its own pattern|{here}|{pat}",
+                              {"here": here, "pattern": pat, "sent_pattern": str(tr_pattern), "sent": sent,
+                               "recorded_by_director": kept}, None)
+            elif rescan != sent:
+                acc.violation(f"C20|api|glob rescan differs|{here}|{pat}",
+                              {"here": here, "pattern": pat, "sent_pattern": str(tr_pattern), "sent": sent,
+                               "rescan_from_root": rescan}, None)
     finally:
         su_api.get_rpc_client, su_api._AMEND_HISTORY, su_api._HOLD_STATE = saved
         os.chdir(saved_cwd)
